@@ -120,13 +120,13 @@ def drive_validate_resumable(out, prop, binary, cmd, spec, runs, seed, label):
 
 def run_c13(tier, seed, out):
     log("[C13] model checking Lifecycle.tla (barrier, competing shutdown requests, bounded channel, timeouts)")
-    for beh, req in (("BehA", "ReqA"), ("BehB", "ReqA"), ("BehB", "ReqB"), ("BehC", "ReqA")):
+    for beh, req in (("BehA", "ReqA"), ("BehB", "ReqA"), ("BehB", "ReqB"), ("BehC", "ReqA"), ("BehD", "ReqA"), ("BehE", "ReqB")):
         model(out, "MC_Lifecycle.tla", LIFE_CFG % (beh, req), "life-%s-%s" % (beh, req), workers=4, timeout=600)
     log("[C13] real run_internet_with_timeout runs (scripted + built-in protocols) validated by TraceLifecycle.tla")
     build_harness(("hv-sim",))
     drive_validate_resumable(out, "C13", HV_SIM, "life-drive", "TraceLifecycle", 800 if tier == "quick" else 12000, seed, "lifecycle scenarios")
     out.cov["rule"] = ("0-4 machines with 0-3 scripted applications (initialisation 0 / 1 ms / 20 ms / 1 s / 2 s; afterwards nothing, frames, a shutdown request, "
-                       "a burst of 2/17/20 requests with distinct statuses, or hanging forever) mixed with Pci, Udp+Ipv4(+Arp) and SendMessage / Capture / Forward; "
+                       "a burst of 2/17/20 requests with distinct statuses, or hanging forever; some ask for a shutdown during their initialisation, some never finish it) mixed with Pci, Udp+Ipv4(+Arp) and SendMessage / Capture / Forward; "
                        "timeouts 10 ms, 50 ms, 1 s, 3 s; distinct counted as runs")
     out.cov["distinct_nontrivial"] = max(out.cov["distinct_nontrivial"], out.cov["traces_validated_against_impl"])
     out.assumptions += ["the arrival of built-in protocols at the barrier is not observable: the barrier clause is judged against the scripted applications",
